@@ -39,13 +39,27 @@ fn all_sequences(max_depth: usize) -> Vec<Vec<Kind>> {
     out
 }
 
-fn limits_for(depth: usize, tier: Tier) -> Limits {
-    match (depth, tier) {
-        (0, _) => Limits { max_rows: 6, max_list_len: 0, max_elems: 6, max_dim: 2 },
-        (1, _) => Limits { max_rows: 6, max_list_len: 3, max_elems: 6, max_dim: 2 },
-        (2, _) => Limits { max_rows: 4, max_list_len: 2, max_elems: 4, max_dim: 2 },
-        (_, Tier::Quick) => Limits { max_rows: 3, max_list_len: 2, max_elems: 3, max_dim: 2 },
-        (_, Tier::Thorough) => Limits { max_rows: 4, max_list_len: 2, max_elems: 4, max_dim: 2 },
+/// limits per layer sequence: sequences with many list layers grow fastest and get the smallest limits
+fn limits_for(kinds: &[Kind], tier: Tier) -> Limits {
+    let depth = kinds.len();
+    let lists = kinds.iter().filter(|k| **k == Kind::List).count();
+    let l = |rows: usize, len: usize, elems: usize| Limits { max_rows: rows, max_list_len: len, max_elems: elems, max_dim: 2 };
+    let q = match (depth, lists) {
+        (0, _) => l(6, 0, 6),
+        (1, _) => l(6, 3, 6),
+        (2, 2) => l(4, 2, 4),
+        (2, _) => l(5, 2, 5),
+        (3, 3) => l(3, 2, 3),
+        (3, 2) => l(3, 2, 4),
+        (3, _) => l(4, 2, 4),
+        (_, 4) | (_, 3) => l(2, 2, 2),
+        (_, 2) => l(3, 2, 3),
+        (_, _) => l(3, 2, 4),
+    };
+    match tier {
+        Tier::Quick => q,
+        // one more row / element everywhere
+        Tier::Thorough => Limits { max_rows: q.max_rows + 1, max_list_len: q.max_list_len, max_elems: q.max_elems + 1, max_dim: 2 },
     }
 }
 
@@ -111,8 +125,8 @@ pub fn run(args: &Args) -> i32 {
     let report = Report::new(
         args,
         "exploration",
-        "(1) ALL nested shapes over {list, fixed-size-list, struct}^depth, depth<=3, with a validity choice at every level and leaf (rows<=6/6/4/3, list length<=3/2, <=6/4/3 elements per level), enumerated at run time through RepDefBuilder->serialize->RepDefUnraveler and compared on logical structure; (2) random larger shapes (depth<=5, up to 200 rows, several batches per page, several pages per composite unraveler, garbage behind null lists, sliced offsets, i32/i64 offsets); (3) control words for every (rep bits, def bits) in 0..=15 x 0..=15; (4) lance-file 2.1 random access (take) of nested list columns in mini-block and full-zip layout vs a direct walk. Non-trivial iff levels were produced (some null / list) and rows>0; distinct by (layer kinds, def meaning, logical rows).",
-        (60, 900),
+        "(1) ALL nested shapes over {list, fixed-size-list, struct}^depth, depth<=4 (every layer independently: list nullable / emptyable / both / all-valid, FSL, struct with validity bitmap, struct via add_no_null; null structs either push their nulls down or leave all-valid / arbitrary layers below them), with a validity choice at every level and leaf (quick: 2-6 rows, list length<=3/2, 2-6 elements per level depending on depth and on the number of list layers, see limits_for), enumerated at run time through RepDefBuilder->serialize->RepDefUnraveler and compared on logical structure; (2) random larger shapes (depth<=5, up to 200 rows, several batches per page, several pages per composite unraveler, garbage behind null lists, sliced offsets, i32/i64 offsets); (3) control words for every (rep bits, def bits) in 0..=15 x 0..=15; (4) lance-file 2.1 random access (take) of nested list columns in mini-block and full-zip layout vs a direct walk. Non-trivial iff levels were produced (some null / list) and rows>0; distinct by (layer kinds, def meaning, logical rows).",
+        (70, 900),
     )
     .with_min_nontrivial(1000);
     report.assume("garbage behind null lists is removed from the child arrays by the caller when add_offsets returns true (what ListStructuralEncoder does); struct nulls are pushed down into the children (what StructStructuralEncoder does)");
@@ -121,10 +135,15 @@ pub fn run(args: &Args) -> i32 {
     let threads = crate::quiet::threads();
 
     // ---------------- (1) exhaustive small shapes ----------------
-    let seqs = all_sequences(3);
+    let seqs = all_sequences(4);
     let mut units = vec![];
     for (si, k) in seqs.iter().enumerate() {
-        let lim = limits_for(k.len(), args.tier);
+        if k.contains(&Kind::Fsl) && k.contains(&Kind::List) {
+            // rejected as a whole by the unraveler (todo!() in decimate): one representative case is enough
+            report.count("layer_sequences_rejected_fsl_with_list", 1);
+            continue;
+        }
+        let lim = limits_for(k, args.tier);
         for rows in 0..=lim.max_rows {
             units.push((si, rows));
         }
@@ -134,7 +153,7 @@ pub fn run(args: &Args) -> i32 {
     let next = AtomicU64::new(0);
     let complete = AtomicBool::new(true);
     let per_seq: std::sync::Mutex<HashMap<String, u64>> = Default::default();
-    let exhaustive_budget = report.budget_s() as f64 * 0.55;
+    let exhaustive_budget = report.budget_s() as f64 * 0.6;
     std::thread::scope(|s| {
         for _ in 0..threads {
             s.spawn(|| loop {
@@ -144,7 +163,7 @@ pub fn run(args: &Args) -> i32 {
                 }
                 let (si, rows) = units[u];
                 let kinds = &seqs[si];
-                let lim = limits_for(kinds.len(), args.tier);
+                let lim = limits_for(kinds, args.tier);
                 let name = seq_name(kinds);
                 let mut od = Odometer::default();
                 let mut n = 0u64;
@@ -204,7 +223,7 @@ pub fn run(args: &Args) -> i32 {
         }
     });
     report.exhaustive(complete.load(Ordering::Relaxed));
-    report.set("exhaustive_subspace", json!("all shapes over {list,fsl,struct}^d, d<=3, within the row / list-length / element limits of the rule, every validity assignment"));
+    report.set("exhaustive_subspace", json!("all shapes over {list,fsl,struct}^d, d<=4 (FSL+list mixes are rejected by the unraveler and skipped), within the row / list-length / element limits of the rule, every validity assignment, struct nulls pushed down or not"));
     report.set("exhaustive_shapes_per_layer_sequence", json!(*per_seq.lock().unwrap()));
 
     // ---------------- (2) random larger shapes ----------------
